@@ -61,7 +61,9 @@ def strategy(tier):
                    st.tuples(st.just("export"), st.sampled_from(["rel", "abs", "path"]), st.booleans()),
                    st.tuples(st.just("clear")))
     return st.fixed_dictionaries({
-        "est": st.one_of(st.integers(1, 8), st.integers(1, 40)),
+        # 1 case in 16: bit arrays beyond one page / beyond 64 KiB (only the first three operations are run then)
+        "est": st.integers(0, 15).flatmap(lambda z: st.sampled_from([600, 7000, 60000]) if z == 0 else
+                                          st.one_of(st.integers(1, 8), st.integers(1, 40))),
         "fpr": st.sampled_from([0.5, 0.3, 0.1, 0.05, 0.01, 0.001, 0.0001]),
         "hash": st.sampled_from(["default", "default", "md5", "salted"]),
         "loc": loc, "elsewhere": st.booleans(), "pool": gen.pool_st(2, 8),
@@ -123,6 +125,14 @@ class World:
         return cwd, (Path(self.fileabs) if style == "path" else self.fileabs)
 
 
+def read_file(ctx, path, what):
+    """read the backing file; a missing file is a failure of the property (the library wrote somewhere else), not a harness error"""
+    if not os.path.exists(path):
+        ctx.fail("C11.snapshot", f"{what}: no file at {path} - the backing file is not where the constructor was told to put it")
+    with open(path, "rb") as f:
+        return f.read()
+
+
 def snapshot_ok(ctx, raw, geo, before_bits, after_bits, completed, inflight, what):
     m, bl, est, fpr32 = geo
     name = "C11.snapshot"
@@ -130,8 +140,9 @@ def snapshot_ok(ctx, raw, geo, before_bits, after_bits, completed, inflight, wha
     e, cnt, f = FOOT.unpack(raw[-20:])
     ctx.check(name, e == est and f == fpr32, lambda: f"{what}: footer est/fpr {(e, f)} != {(est, fpr32)}")
     bits = raw[:bl]
-    ctx.check(name, all((b & x) == x for b, x in zip(bits, before_bits)), f"{what}: a bit of a completed addition is missing from the file")
-    ctx.check(name, all((b | x) == x for b, x in zip(bits, after_bits)), f"{what}: the file has a bit no completed or in-flight addition sets")
+    bi, lo, hi = int.from_bytes(bits, "little"), int.from_bytes(before_bits, "little"), int.from_bytes(after_bits, "little")
+    ctx.check(name, bi & lo == lo, f"{what}: a bit of a completed addition is missing from the file")
+    ctx.check(name, bi | hi == hi, f"{what}: the file has a bit no completed or in-flight addition sets")
     # the count may lag behind the addition in flight, never run ahead of it: completed+1 only once all its bits are in the file
     ok = cnt == completed or (inflight and cnt == completed + 1 and bits == after_bits)
     ctx.check(name, ok, lambda: f"{what}: stored count {cnt}, completed additions {completed}, add in flight: {inflight}, "
@@ -146,6 +157,8 @@ def replay(case, root, ctx=None, kill_at=None, collect=None):
 
     hf = hash_by_name(case["hash"])
     pool = [dk(k) for k in case["pool"]]
+    if case["est"] > 5000:
+        case = dict(case, ops=case["ops"][:3])  # every snapshot reads the whole file: keep large geometries short
     W = World(root)
     W.place(case["loc"])
     cwd, arg = W.arg(case["loc"], case["elsewhere"])
@@ -185,7 +198,7 @@ def replay(case, root, ctx=None, kill_at=None, collect=None):
             ref.clear()
             keys = []
             if ctx is not None:
-                raw = open(W.fileabs, "rb").read()
+                raw = read_file(ctx, W.fileabs, "snapshot")
                 z = bytes(ref.bloom_length)
                 snapshot_ok(ctx, raw, geo, z, z, 0, False, f"after clear (op {oi})")
                 ctx.op("clear")
@@ -202,7 +215,7 @@ def replay(case, root, ctx=None, kill_at=None, collect=None):
             snaps = [] if (last and collect is not None) else None
 
             def hook(i):
-                raw = open(W.fileabs, "rb").read()
+                raw = read_file(ctx, W.fileabs, "snapshot")
                 nsnap[0] += 1
                 bits, cnt = snapshot_ok(ctx, raw, geo, before, after, completed, inflight, f"op {oi} {kind} line event {i}")
                 if snaps is not None:
@@ -223,11 +236,11 @@ def replay(case, root, ctx=None, kill_at=None, collect=None):
             keys.append(k)
         # state after the operation
         if ctx is not None:
-            raw = open(W.fileabs, "rb").read()
+            raw = read_file(ctx, W.fileabs, "snapshot")
             snapshot_ok(ctx, raw, geo, after, after, ref.elements_added, False, f"after op {oi} {kind}")
         if kind == "reopen":
             if ctx is not None:
-                raw = open(W.fileabs, "rb").read()
+                raw = read_file(ctx, W.fileabs, "snapshot")
                 ctx.check("C11.closed_equals_memory", raw == bytes(ref), lambda: f"after close (op {oi}): file differs from the in-memory export: "
                                                                                   f"{raw[-20:].hex()} vs {bytes(ref)[-20:].hex()}")
                 g = ctx.call(nx, BloomFilter, filepath=W.fileabs, hash_function=hf)
@@ -243,7 +256,7 @@ def replay(case, root, ctx=None, kill_at=None, collect=None):
                 feats.add("reopen_%s%s" % (op[1], "_elsewhere" if op[2] else ""))
                 ctx.op("reopen", op[1], op[2])
         elif kind == "export" and ctx is not None:
-            src = open(W.fileabs, "rb").read()
+            src = read_file(ctx, W.fileabs, "export source")
             ctx.check("C11.export", os.path.exists(target), lambda: f"export({targ!r}) from cwd {os.getcwd()} produced no file")
             cp = open(target, "rb").read()
             ctx.check("C11.export", cp == src == bytes(ref), "exported copy differs from the backing file / in-memory export")
@@ -256,14 +269,14 @@ def replay(case, root, ctx=None, kill_at=None, collect=None):
     # final close keeps everything
     call(o.close)
     if ctx is not None:
-        raw = open(W.fileabs, "rb").read()
+        raw = read_file(ctx, W.fileabs, "snapshot")
         ctx.check("C11.closed_equals_memory", raw == bytes(ref), "after the final close the file differs from the in-memory export")
         cwd, arg = W.arg("abs", True)
         os.chdir(cwd)
         o2 = call(BloomFilterOnDisk, arg, hash_function=hf)
         ctx.check("C11.reopen", all(o2.check(x) for x in keys) and o2.elements_added == ref.elements_added, "final reopen loses keys or count")
         call(o2.close)
-        raw2 = open(W.fileabs, "rb").read()
+        raw2 = read_file(ctx, W.fileabs, "after reopen+close")
         ctx.check("C11.reopen", raw2 == raw, "a close right after reopening changed the file")
     return feats, nsnap[0], digests, geo
 
@@ -294,6 +307,7 @@ def run_case(case, ctx):
             killed = os.WIFSIGNALED(status) and os.WTERMSIG(status) == signal.SIGKILL
             ctx.check("C11.kill", killed, f"child for line event {i} was not killed (status {status})")
             loc = os.path.join(os.path.realpath(kroot), "sub" if case["loc"] == "sub" else "", "f.blm")
+            ctx.check("C11.kill", os.path.exists(loc), lambda: f"after a real SIGKILL at line event {i} there is no backing file at {loc}")
             raw = open(loc, "rb").read()
             ctx.check("C11.kill", raw == collect[i], lambda: f"file left by a real SIGKILL at line event {i} differs from the in-process snapshot")
             ctx.feat("real_sigkills")
